@@ -187,6 +187,12 @@ def resolved_oracle(case, line):
             return ('known-ltr', 'left to right with accumulated offset (%g,%g): ShiftCollider::initSlot overwrites the re-based lower x bound with -limit.tr.x (dropping the offset), the per-axis range test then discards the '
                                  'neighbour and the glyph is reported resolved at shift (%g, %g) although its octabox overlaps the neighbour\'s by (%.1f, %.1f, %.1f, %.1f) (neighbour at (%g,%g), x-symmetric limit [(%g,%g),(%g,%g)])'
                                  % (ox, oy, shx, shy, ov[0], ov[1], ov[2], ov[3], nx, ny, lbx, lby, ltx, lty))
+        if all(o > tol for o in ov) and nsub > 0 and (bxi < main[0] - 1 or byi < main[1] - 1 or bxa > main[2] + 1 or bya > main[3] + 1
+                                                       or bsi < main[4] - 1 or bdi < main[5] - 1 or bsa > main[6] + 1 or bda > main[7] + 1):
+            return ('known-subbox', 'the neighbour glyph\'s data puts a sub-octabox outside its own bounding octabox (sub-box x %g..%g y %g..%g sum %g..%g diff %g..%g, bounding octabox x %g..%g y %g..%g sum %g..%g diff %g..%g): '
+                                    'ShiftCollider::mergeSlot tests the bounding octabox first, axis by axis, and skips the sub-boxes on every axis where that box cannot be hit inside the limits, so this sub-box is never excluded and '
+                                    'the glyph is reported resolved at shift (%g, %g) while overlapping it by (%.1f, %.1f, %.1f, %.1f) (neighbour at (%g,%g))'
+                                    % (bxi, bxa, byi, bya, bsi, bsa, bdi, bda, main[0], main[2], main[1], main[3], main[4], main[6], main[5], main[7], shx, shy, ov[0], ov[1], ov[2], ov[3], nx, ny))
         if all(o > tol for o in ov):
             return ('violation', 'ShiftCollider::resolve reports the glyph resolved at shift (%g, %g) yet its octabox overlaps the neighbour\'s by (%.1f, %.1f, %.1f, %.1f) on the x, y, sum and diff axes '
                                  '(offset (%g,%g), neighbour at (%g,%g))' % (shx, shy, ov[0], ov[1], ov[2], ov[3], ox, oy, nx, ny))
@@ -341,6 +347,8 @@ def run(chk):
             chk.violation('c17:zero-width-zone-keeps-excluded-position', bad[1], dict(case=c, got=l[:1200]))
         if bad[0] == 'known-frame':
             chk.violation('c17:reach-test-in-offset-frame', bad[1], dict(case=c, got=l[:1200]))
+        if bad[0] == 'known-subbox':
+            chk.violation('c17:subbox-outside-the-bounding-octabox-is-pruned-with-it', bad[1], dict(case=c, got=l[:1200]))
         if bad[0] == 'known-ltr':
             chk.violation('c17:ltr-lower-x-bound-drops-offset', bad[1], dict(case=c, got=l[:1200]))
     chk.notes.append('resolved-verdict clause: %d arrangements reported resolved and checked against the octabox separation oracle' % nres)
